@@ -205,12 +205,21 @@ func (a *asRun) step(s int) string {
 		if a.w.l2Next < 4 || b < low {
 			b = low
 		}
+		oldNext := a.w.l2Next
 		if err := a.w.l2Reorg(b); err != nil {
 			a.r.Inconclusive("world: L2 reorg: " + err.Error())
 			a.dead = true
 			break
 		}
-		desc = fmt.Sprintf("L2reorg(from %d)", b)
+		// the new fork is at least as long as the one it replaces (that is why it wins)
+		for a.w.l2Next < oldNext {
+			if _, err := a.w.l2Block(g.Intn(4)); err != nil {
+				a.r.Inconclusive("world: " + err.Error())
+				a.dead = true
+				break
+			}
+		}
+		desc = fmt.Sprintf("L2reorg(from %d, new fork up to %d)", b, a.w.l2Next-1)
 		a.cov["l2-reorg"] = true
 	case stReadFault:
 		if a.node == nil || a.refused || a.node.fault == nil {
